@@ -103,7 +103,7 @@ class C12(HistoryProperty):
         # bare cached(...) nodes are driven directly too: they see the caller's dictionary object itself
         inner = [n["id"] for n in spec["nodes"] if n["k"] == "cached"]
         spec["roots"] = list(dict.fromkeys(spec["roots"] + rng.sample(inner, min(len(inner), 2))))
-        dg = U.DictGen(rng, cfg)
+        dg = U.DictGen(rng, cfg, no_list_keys=gen.hashable_required_keys(spec))
         dg.MUTATIONS = list(dg.MUTATIONS) + ["repeat"] * 3
         ops = gen_history(rng, cfg, spec, n_ops=rng.randint(2, 9), dictgen=dg)
         inplace = rng.random() < 0.33
@@ -394,7 +394,11 @@ class C12(HistoryProperty):
     def signature(self, case, violation):
         if violation["kind"] == "failed-evaluation-left-a-cache-entry" and violation["detail"].get("store_preceded_fault"):
             return "fault-in-key-computation-during-read-back"
-        if violation["kind"] == "fault-swallowed" and any(f[4] == "CacheGetFailure" for f in violation["detail"].get("faults", [])):
+        d = violation["detail"]
+        if violation["kind"] == "fault-swallowed" and any(f[4] == "CacheGetFailure" for f in d.get("faults", [])):
+            return "user-exception-typed-as-cache-miss-signal"
+        if violation["kind"] == "original-exception-unreachable" and any(f[:4] == list(d.get("fault", [])) and f[4] == "CacheGetFailure" for f in d.get("faults", [])):
+            # the same finding in a multi-fault plan: the look-alike was taken for a miss, the op then failed for another reason
             return "user-exception-typed-as-cache-miss-signal"
         if gen.scalar_at_section_prefix(case["spec"], [op["o"] for op in case["ops"] if "o" in op]):
             return "scalar-at-section-prefix"
